@@ -146,7 +146,10 @@ def translate(pins=None):
     v_rt = variant("db.record_tags", rt)
     v_dt = variant("db.delete_tags", dt)
     # structural cross-checks of what the variant names claim
-    RT_FLAGS = {"shipped": (False, False), "deduped": (True, False), "deduped+skip": (True, True), "fixed": (True, True)}
+    RT_FLAGS = {"shipped": (False, False), "deduped": (True, False), "deduped+skip": (True, True), "fixed": (True, True),
+                # as deduped+skip, with the final `self.session.commit()` made unconditional (fix d72150f; the model
+                # does not distinguish an empty commit from none)
+                "deduped+skip+always-commit": (True, True)}
     if v_rt not in RT_FLAGS:
         fail(f"record_tags: variant {v_rt!r} has no configuration", rt)
     top = body_nodoc(rt)
